@@ -23,7 +23,7 @@ CHECKS = {
         category="other",
         text="Substitution clause decided exactly: the closure's decision table (ccp, 64 setting subsets x 4 feasible memberships) equals the "
              "documented precedence; captured variables are traced to the settings written by the public setters; the pass runs whenever a class "
-             "option is on; the char handed to the predicates ranges over all chars of every stored string (CLS-4); no memo table shares work between test cases with a lossy key (MEMO-1); class tokens keep their backslash while literal backslashes are escaped for every entry (ESC-1/2) and never share a trie edge with literal text (LBL-2). The language clause (tokens survive the automaton pipeline) is not decided.",
+             "option is on; the char handed to the predicates ranges over all chars of every stored string (CLS-4); no memo table shares work between test cases with a lossy key (MEMO-1); class tokens keep their backslash while literal backslashes are escaped for every entry (ESC-1/2) and never share a trie edge with literal text (LBL-2); the union drops a class token only for one that includes it per a table verified against the Unicode tables (UNI-4). The language clause (tokens survive the automaton pipeline) is not decided.",
         design_ref="DESIGN.md §4 C03",
         note=TRUST + "Necessary-and-sufficient for the per-code-point substitution, necessary only for the language statement.",
         technique="static analysis: path-splitting constant propagation + control dependence + setter effect summaries",
@@ -53,7 +53,7 @@ CHECKS = {
         text="Anchor emission decided exactly by constant propagation over the printer (all abstract paths: '^'/'$' iff enabled, nothing rewrites them); "
              "the search clause is decided only as mechanism: alternations are always ordered longest-first, the order self-check covers every "
              "configuration without '$' and judges the match extent, all stages of the entry function consume the same converted clusters (PIPE-1) and the one "
-             "alternation that is not self-checked afterwards is ordered by matched chars (ALT-2), and the self-check examines every test case (SCK-3).",
+             "alternation that is not self-checked afterwards is ordered by matched chars (ALT-2), and the self-check examines every test case (SCK-3); where test cases and clusters are paired by position both sides are element-wise images of one test-case vector (ZIP-1).",
         design_ref="DESIGN.md §4 C08",
         note=TRUST + "That every search spans the whole test case for all inputs is not decided (needs the run-time automaton).",
         technique="static analysis: path-splitting constant propagation with string templates, control dependence, provenance of the self-check verdict",
@@ -81,7 +81,7 @@ CHECKS = {
         category="other",
         text="Necessary conditions only: finality is transferred per state when the automaton is rebuilt and every inserted test case marks its last "
              "state final; every regex metacharacter (oracle: regex_syntax::is_meta_character of the locked version) is escaped per occurrence in literals "
-             "and in bracket classes; the single-code-point test that licenses bracket classes and group omission counts chars and measures every unit (CNT-1/2); the partition refinement has the shape of Hopcroft's algorithm and runs to the fixpoint (MIN-1..6); reader and remover of common prefixes/suffixes agree on positions (SUB-1); edge labels are identified by their entries, not their joined text (LBL-1/2), escaping reaches every entry and every nesting level on every path (ESC-2/3). Breaking any of them makes some test case unmatched or the pattern invalid. That minimisation, elimination and "
+             "and in bracket classes; the single-code-point test that licenses bracket classes and group omission counts chars and measures every unit (CNT-1/2); the partition refinement has the shape of Hopcroft's algorithm and runs to the fixpoint (MIN-1..6); reader and remover of common prefixes/suffixes agree on positions (SUB-1); the union's necessary conditions hold (UNI-1..4: class merge only for single code points, `x?` from the non-empty side, prefix/suffix re-attached on the right side, an alternative dropped only when absent, equal or included per a verified class table); the first char of a grapheme stands for it only under a single-code-point test (FCH-1); edge labels are identified by their entries, not their joined text (LBL-1/2), escaping reaches every entry and every nesting level on every path (ESC-2/3). Breaking any of them makes some test case unmatched or the pattern invalid. That minimisation, elimination and "
              "printing preserve membership is not decided.",
         design_ref="DESIGN.md §4 C01",
         note=TRUST + "One genuine defect is recorded as a known finding (empty string loses finality: FIN-1) because its repair contradicts three pinned tests.",
@@ -111,7 +111,7 @@ CHECKS = {
         text="Structural clauses: on every verbose path each character ignored under (?x) is rewritten to an escape denoting exactly that character; the "
              "(?x)/(?ix) header is exact; in each group-printing function one boolean decides the group kind on all paths; value-flow provenance shows "
              "that every capture / line-break / colour / escape / surrogate site can only receive its own setting (no crossed positional flags); the counter behind "
-             "the single-code-point test measures chars of every unit (CNT-1/2), with or without escaping.",
+             "the single-code-point test measures chars of every unit (CNT-1/2), with or without escaping; the verbose and the plain arm of every component rendering agree up to line breaks (VRB-1); the first char of a grapheme stands for it only under a single-code-point test (FCH-1).",
         design_ref="DESIGN.md §4 C06",
         note=TRUST + "Language equality under each option is not decided; the indenter's content preservation is assumed.",
         technique="static analysis: constant propagation with string templates (loops over constant arrays unrolled), interprocedural value-flow provenance",
@@ -130,7 +130,7 @@ CHECKS = {
         text="Printer clauses only (each necessary: breaking one yields ^a|b$-style over-matching for some input): precedence table order, group iff "
              "lower precedence and not a single code point with the right operands, outer group iff alternation - decided on all abstract paths; class ranges only over "
              "consecutive scalars; inside union(): class merge only under single-code-point guards, `x?` only from the non-empty side and never `*` (abstract paths of union), "
-             "prefix/suffix re-attached on the right side; the state elimination has the schema of the algebraic method; the single-code-point counter counts chars; concatenate keeps operand order (CON-1/REV-1); the equation system is the automaton (BRZ-0: rows by traversal from the initial state, b[i]=eps iff final, a[i,pos(target)]=label, no accumulator across columns); the class printer emits members only (TOK-1); MIN-1..6 and SUB-1 as in C01. Whether the "
+             "prefix/suffix re-attached on the right side; the state elimination has the schema of the algebraic method; the single-code-point counter counts chars; concatenate keeps operand order (CON-1/REV-1); the equation system is the automaton (BRZ-0: rows by traversal from the initial state, b[i]=eps iff final, a[i,pos(target)]=label, no accumulator across columns); the class printer emits members only (TOK-1); a path of union() that returns one alternative only knows the other absent, equal or included (UNI-4, inclusion table verified against the Unicode tables); first char of a grapheme only under a single-code-point test (FCH-1); MIN-1..6 and SUB-1 as in C01. Whether the "
              "minimiser, union() factoring and remove_common_substring preserve the language is NOT decided.",
         design_ref="DESIGN.md §4 C02",
         note=TRUST + "The algorithmic core of exactness is out of reach of this family; see DESIGN.md §0.",
@@ -140,7 +140,7 @@ CHECKS = {
         category="other",
         text="Component-level decision: for all 18 component variants and flag valuations the coloured rendering minus SGR sequences equals the plain rendering "
              "(string templates); the SGR syntax written agrees with the pattern that strips it; the indenter decides on the colour-stripped line; every colour "
-             "argument comes from the colour setting only; no coloured rendering puts a line break inside a colour span (COL-4: the indenter drops empty lines before stripping).",
+             "argument comes from the colour setting only; no coloured rendering puts a line break inside a colour span (COL-4: the indenter drops empty lines before stripping); every rewrite pass over the assembled output is blind to colour codes (COL-5).",
         design_ref="DESIGN.md §4 C15",
         note=TRUST + "Whole-output equality additionally relies on the component decomposition of the printers (PLB-1) and is not executed.",
         technique="static analysis: sibling-implementation agreement by constant propagation with string templates; provenance of guard predicates; value flow",
@@ -149,7 +149,7 @@ CHECKS = {
         category="other",
         text="Delegation decided on the type-checked python feature build: each library setter has a sibling exported under the same Python name with an equal "
              "effect summary; thresholds and the constructor raise ValueError with the library's messages exactly when the library would panic; build returns the "
-             "library's pattern, rewritten iff escaping is on; every escape width the Rust side can emit is consumed by the rewriter and becomes \\u+4 / \\U+8 digits.",
+             "library's pattern, rewritten iff escaping is on; every escape width the Rust side can emit is consumed by the rewriter and becomes \\u+4 / \\U+8 digits; an escaped backslash is consumed by an alternative of its own and returned unchanged (PYW-5).",
         design_ref="DESIGN.md §4 C14",
         note=TRUST + "pyo3's generated glue and CPython's re module are trusted; nothing is executed.",
         technique="static analysis: effect-summary agreement of sibling implementations, producer/consumer agreement on constant patterns and format templates",
